@@ -40,6 +40,10 @@ void check_history(History const& h,
                    OracleOpts const& opts,
                    RunResult& out);
 
+//! Whether the last `window` steps of a history changed anything (tracks,
+//! positions, energies, times, queue length): liveness judged as progress
+bool history_made_progress(History const& h, std::size_t window = 2000);
+
 //! Shape hash (sequence of per-step population changes) and triviality
 void history_shape(History const& h, RunResult& out);
 }  // namespace vsim
